@@ -67,6 +67,9 @@ def fwdRefRun (itemAt : Nat → Option (Nat × Nat)) (total k : Nat) (calls : Li
       | 'n' => if cur ≥ total then (o ++ ["-"], total) else (o ++ [item cur], cur + 1)
       | 'N' => if cur + j ≥ total then (o ++ ["-"], total) else (o ++ [item (cur + j)], cur + j + 1)
       | 'l' => (o ++ [s!"l{total - min cur total}"], cur)
+      | 'c' => (o ++ [s!"c{total - min cur total}"], cur)
+      | 'L' => (o ++ [if cur ≥ total then "L-" else "L" ++ item (total - 1)], cur)
+      | 'h' => (o ++ [s!"h{total - min cur total},{total - min cur total}"], cur)
       | _ => (o ++ ["?"], cur)) ([], min k total)
   " ".intercalate out
 
